@@ -5,7 +5,7 @@
    UpdateMaxProbe never under-approximates, the growth policy does not shrink / probing reaches every bucket,
    CalcCapacity <= physical size); they are proved below for the kinds used by the extracted model. *)
 From Coq Require Import ZArith List Bool Permutation.
-From C11 Require Import GrowModel GenTie GenGrow GenFull GenFullP4.
+From C11 Require Import GrowModel GenTie GenGrow GenFull GenFullP4 GenMove GenSame.
 Import ListNotations.
 Local Open Scope Z_scope.
 
@@ -636,6 +636,118 @@ Theorem C11_n1_remove :
          S (length its) = length (items B b) -> rel_n1 B rv mc d' {| items := its; wasFull := wf; bound := bd |}.
 Proof. exact n1_remove. Qed.
 Print Assumptions C11_n1_remove.
+
+(* T-gen tie of the insertion probe loop.  The loop of HashSet::pvAddNogrow (`while (bucket->IsFull()) { ++probe; if (probe >= bucketCount) throw "Hash table is full"; bucketIndex = GetNextBucketIndex(..); bucket = &buckets[bucketIndex]; }`) is regenerated from HashSet.h on every run (Gen_HashSetMove.v; buckets are handles, IsFull / GetNextBucketIndex are parameters).  Instantiated with the model table (IsFull of the model bucket, the kind's next-index function) the GENERATED loop throws "Hash table is full" exactly when the hand model's tadd fails, and otherwise stops at the bucket and with the probe count where tadd places the item.  So every theorem above about full tables / fallback insertion / migration targets rests on the generated loop. *)
+Theorem C11_gen_addnogrow_is_tadd :
+  forall (B : Type) (b0 : B) (cap : Z) (wf0 : bool) (next : Z -> Z -> Z -> Z) (t : table B) (ub : B -> Z -> B)
+           (wfu : Z -> bool) (start : Z -> Z -> Z) (h : Z -> Z) (k : Z) (extra : nat),
+         0 <= tlog B t ->
+         bcount B t < 2 ^ 64 ->
+         let i0 := start (h k) (bcount B t) in
+         let n := Z.to_nat (bcount B t - 1) in
+         (Gen_HashSetMove.pvAddNogrow_loop0 (fun i : Z => isFull B cap (getb B b0 wf0 t i)) (fun i _ bc p : Z => next i bc p)
+            (fun _ i : Z => i) (S n + extra) (bcount B t) 0 (h k) i0 i0 0 = GenPrelude.Exn <->
+          tadd B b0 ub h cap wf0 wfu start next t k = None) /\
+         (forall (i : Z) (q : nat),
+          add_loop B b0 cap wf0 next n t 0 i0 = Some (i, q) ->
+          Gen_HashSetMove.pvAddNogrow_loop0 (fun i1 : Z => isFull B cap (getb B b0 wf0 t i1)) (fun i1 _ bc p : Z => next i1 bc p)
+            (fun _ i1 : Z => i1) (S n + extra) (bcount B t) 0 (h k) i0 i0 0 = GenPrelude.Ok (None, (i, i, Z.of_nat q))).
+Proof. exact gen_addnogrow_is_tadd. Qed.
+Print Assumptions C11_gen_addnogrow_is_tadd.
+
+(* the same, loop against loop: generated pvAddNogrow loop = the hand model's add_loop from any intermediate probe. *)
+Theorem C11_gen_addnogrow_loop :
+  forall (B : Type) (b0 : B) (cap : Z) (wf0 : bool) (next : Z -> Z -> Z -> Z) (t : table B) (n : nat) 
+           (probe idx hc : Z) (extra : nat),
+         0 <= probe ->
+         Z.of_nat n = bcount B t - 1 - probe ->
+         bcount B t < 2 ^ 64 ->
+         Gen_HashSetMove.pvAddNogrow_loop0 (fun i : Z => isFull B cap (getb B b0 wf0 t i)) (fun i _ bc p : Z => next i bc p)
+           (fun _ i : Z => i) (S n + extra) (bcount B t) 0 hc idx idx probe =
+         match add_loop B b0 cap wf0 next n t (Z.to_nat probe) idx with
+         | Some (i, q) => GenPrelude.Ok (None, (i, i, Z.of_nat q))
+         | None => GenPrelude.Exn
+         end.
+Proof. exact gen_addnogrow_loop. Qed.
+Print Assumptions C11_gen_addnogrow_loop.
+
+(* T-gen, loop skeleton of HashSet::pvRelocateItems(Buckets ptr) -- generated; GetHashCodePart and Remove-with-replacer -- whose replacer is the pvAddNogrow into the newest table -- are parameters = the item move as a primitive: the inner loop over a bucket with c items performs exactly c moves, on the items end-1, end-2, ..., end-c (last to first, the order of the hand model's reloc_items), given that Remove of the last item hands the iterator back. *)
+Theorem C11_gen_reloc_inner :
+  forall (blog : Z) (hashpart : Z -> Z -> Z -> Z -> Z -> Z -> Z) (remove : Z -> Z -> Z -> Z -> Z),
+         (forall b p it r : Z, remove b p it r = it) ->
+         forall (c fuel : nat) (bucket bp bks g i rp mb mcap mm it cnt rmp : Z),
+         (c < fuel)%nat ->
+         Z.of_nat c < 2 ^ 64 ->
+         Gen_HashSetMove.pvRelocateItems_b_loop1 blog hashpart remove fuel bucket bp bks g i rp mb mcap mm it (Z.of_nat c) cnt rmp =
+         GenPrelude.Ok (None, (it - Z.of_nat c, 0, cnt, rmp)).
+Proof. exact gen_reloc_inner. Qed.
+Print Assumptions C11_gen_reloc_inner.
+
+(* ... and the outer loop handles every bucket 0 .. bucketCount-1 exactly once in ascending order (the order of the hand model's reloc_buckets) and ends at bucketCount.  The EFFECTS of a move, the exception paths (failure swallowed, generations stay linked) and the recursion over older generations remain hand-modelled (GrowModel.reloc) and are tied by T-cor. *)
+Theorem C11_gen_reloc_outer :
+  forall (blog : Z) (hashpart : Z -> Z -> Z -> Z -> Z -> Z -> Z) (remove : Z -> Z -> Z -> Z -> Z),
+         (forall b p it r : Z, remove b p it r = it) ->
+         forall (at_ : Z -> Z -> Z) (deref : Z -> Z) (bounds : Z -> Z -> Z) (bend count_of : Z -> Z),
+         (forall x : Z, 0 <= count_of x < 70) ->
+         forall (n : nat) (i bc bp bks g ht rp mb mcap mm cnt rmp : Z) (extra : nat),
+         0 <= i ->
+         Z.of_nat n = bc - i ->
+         bc < 2 ^ 64 ->
+         Gen_HashSetMove.pvRelocateItems_b_loop0 blog at_ deref bounds bend hashpart remove count_of (S n + extra) bc bp bks g ht
+           rp mb mcap mm i cnt rmp = GenPrelude.Ok (None, (bc, cnt, rmp)).
+Proof. exact gen_reloc_outer. Qed.
+Print Assumptions C11_gen_reloc_outer.
+
+(* same-code: BucketLimP4<.., 3, .., true> translated with maxCount symbolic gives literally the same Gallina as BucketLimP4<.., 4, .., true> for pvGetCount, IsFull, pvGetMemPoolIndex, WasFull, pvSetPtrState, pvSetEmpty, Clear, Remove (AddCrt differs per maxCount and is not claimed). *)
+Theorem C11_limp4_same_code_3_is_4 :
+  Gen_P4S3.pvGetCount = Gen_P4S4.pvGetCount /\
+         Gen_P4S3.IsFull = Gen_P4S4.IsFull /\
+         Gen_P4S3.pvGetMemPoolIndex = Gen_P4S4.pvGetMemPoolIndex /\
+         Gen_P4S3.WasFull = Gen_P4S4.WasFull /\
+         Gen_P4S3.pvSetPtrState = Gen_P4S4.pvSetPtrState /\
+         Gen_P4S3.pvSetEmpty = Gen_P4S4.pvSetEmpty /\ Gen_P4S3.Clear = Gen_P4S4.Clear /\ Gen_P4S3.Remove = Gen_P4S4.Remove.
+Proof. exact limp4_same_code_3_is_4. Qed.
+Print Assumptions C11_limp4_same_code_3_is_4.
+
+(* ... BucketLimP4<2>. *)
+Theorem C11_limp4_same_code_2_is_4 :
+  Gen_P4S2.pvGetCount = Gen_P4S4.pvGetCount /\
+         Gen_P4S2.IsFull = Gen_P4S4.IsFull /\
+         Gen_P4S2.pvGetMemPoolIndex = Gen_P4S4.pvGetMemPoolIndex /\
+         Gen_P4S2.WasFull = Gen_P4S4.WasFull /\
+         Gen_P4S2.pvSetPtrState = Gen_P4S4.pvSetPtrState /\
+         Gen_P4S2.pvSetEmpty = Gen_P4S4.pvSetEmpty /\ Gen_P4S2.Clear = Gen_P4S4.Clear /\ Gen_P4S2.Remove = Gen_P4S4.Remove.
+Proof. exact limp4_same_code_2_is_4. Qed.
+Print Assumptions C11_limp4_same_code_2_is_4.
+
+(* ... BucketLimP4<1>. *)
+Theorem C11_limp4_same_code_1_is_4 :
+  Gen_P4S1.pvGetCount = Gen_P4S4.pvGetCount /\
+         Gen_P4S1.IsFull = Gen_P4S4.IsFull /\
+         Gen_P4S1.pvGetMemPoolIndex = Gen_P4S4.pvGetMemPoolIndex /\
+         Gen_P4S1.WasFull = Gen_P4S4.WasFull /\
+         Gen_P4S1.pvSetPtrState = Gen_P4S4.pvSetPtrState /\
+         Gen_P4S1.pvSetEmpty = Gen_P4S4.pvSetEmpty /\ Gen_P4S1.Clear = Gen_P4S4.Clear /\ Gen_P4S1.Remove = Gen_P4S4.Remove.
+Proof. exact limp4_same_code_1_is_4. Qed.
+Print Assumptions C11_limp4_same_code_1_is_4.
+
+(* the symbolic translation at maxCount = 4 is the concrete translation that GenFullP4.v / C12's stack reason about. *)
+Theorem C11_limp4_symbolic_at_4_is_concrete :
+  forall (hc mm : Z) (s : Z -> Z) (p st : Z),
+         Gen_P4S4.pvGetCount s p st = Gen_P4A.pvGetCount s p st /\
+         Gen_P4S4.IsFull 4 s p st = Gen_P4A.IsFull s p st /\
+         Gen_P4S4.pvGetMemPoolIndex 4 s p st = Gen_P4A.pvGetMemPoolIndex s p st /\
+         Gen_P4S4.WasFull 4 s p st = Gen_P4A.WasFull s p st /\
+         Gen_P4S4.Clear 4 hc mm s p st = Gen_P4A.Clear hc mm s p st /\
+         (forall it ix : Z, Gen_P4S4.Remove 4 hc mm s p st it ix = Gen_P4A.Remove hc mm s p st it ix).
+Proof. exact limp4_symbolic_at_4_is_concrete. Qed.
+Print Assumptions C11_limp4_symbolic_at_4_is_concrete.
+
+(* what the shared IsFull says for every maxCount 1..4: the last short-hash byte is below maskEmpty. *)
+Theorem C11_limp4_isfull_any_maxcount :
+  forall (mc : Z) (s : Z -> Z) (p st : Z), 1 <= mc <= 4 -> Gen_P4S4.IsFull mc s p st = (s (mc - 1) <? 128).
+Proof. exact limp4_isfull_any_maxcount. Qed.
+Print Assumptions C11_limp4_isfull_any_maxcount.
 
 (* HashBucketOpen2N2<1> and HashBucketOpen2N2<3> translate to the same Gallina (maxCount is a Section variable): one proof covers all instantiations. *)
 Theorem C11_same_code_open2n2_policy :
